@@ -89,13 +89,15 @@ def theorems_of(module_file: str):
     return names
 
 
-def audit(pid: str, workdir: str, required=()):
+def audit(pid: str, workdir: str, required=(), extra_files=()):
     """Print the axioms of every theorem of Props/<pid>.lean.
 
     Returns dict(obligations, discharged, theorems=[{name, axioms, ok}], missing_required)."""
-    prop_file = os.path.join(paths.LEAN, "PdeVerif", "Props", f"{pid}.lean")
-    names = theorems_of(prop_file)
-    src = [f"import PdeVerif.Props.{pid}"] + [f"#print axioms {n}" for n in names]
+    mods = [pid] + list(extra_files)
+    names = []
+    for m in mods:
+        names += theorems_of(os.path.join(paths.LEAN, "PdeVerif", "Props", f"{m}.lean"))
+    src = [f"import PdeVerif.Props.{m}" for m in mods] + [f"#print axioms {n}" for n in names]
     f = os.path.join(workdir, f"Audit_{pid}.lean")
     with open(f, "w") as fh:
         fh.write("\n".join(src) + "\n")
